@@ -7,61 +7,70 @@
 (***************************************************************************)
 EXTENDS Resolver, TLAPS
 
-ASSUME Assump == Blocklisted = TRUE /\ MaxCalls \in Nat
+ASSUME Assump == Blocklisted = TRUE /\ Dev_KeyByAddress = FALSE /\ MaxCalls \in Nat
 
 \* what matters about FirstMatch: it does not depend on the instance unless the type is instance-dependent
 LEMMA InstanceFree ==
   \A t \in Types : ~InstanceDependent(t) =>
      \A i, j \in Insts : FirstMatch([ty |-> t, inst |-> i]) = FirstMatch([ty |-> t, inst |-> j])
-  BY DEF Types, InstanceDependent, Insts, FirstMatch, Matches, Cats
+  BY DEF Types, StaticTypes, DynTypes, InstanceDependent, Insts, FirstMatch, Matches, Cats
 
+\* (stronger than MemoSound: also for memoized types that are not alive - there are none, Death needs t \notin DOMAIN memo)
+MemoSoundAll == \A t \in DOMAIN memo : \A i \in Insts : FirstMatch([ty |-> t, inst |-> i]) = memo[t]
 IndInv ==
   /\ DOMAIN memo \subseteq Types
   /\ \A t \in DOMAIN memo : ~InstanceDependent(t)
-  /\ MemoSound
+  /\ MemoSoundAll
   /\ C19_HistoryIndependent
   /\ calls \in Nat
 
 LEMMA InitInd == Init => IndInv
-  BY DEF Init, IndInv, MemoSound, C19_HistoryIndependent
+  BY DEF Init, IndInv, MemoSoundAll, C19_HistoryIndependent
 
 LEMMA StepInd == IndInv /\ [Next]_rvars => IndInv'
 <1> SUFFICES ASSUME IndInv, [Next]_rvars PROVE IndInv'
   OBVIOUS
 <1>1. CASE UNCHANGED rvars
-  BY <1>1 DEF rvars, IndInv, MemoSound, C19_HistoryIndependent
-<1>2. CASE Next
+  BY <1>1 DEF rvars, IndInv, MemoSoundAll, C19_HistoryIndependent
+<1>3. CASE \E t \in DynTypes : Death(t) \/ \E a \in DynAddrs : Birth(t, a)
+  <2> memo' = memo /\ calls' = calls /\ last' = last
+    BY <1>3 DEF Death, Birth
+  <2> QED
+    BY DEF IndInv, MemoSoundAll, C19_HistoryIndependent
+<1>2. CASE \E v \in Values : GetType(v)
   <2> PICK v \in Values : GetType(v)
-    BY <1>2 DEF Next
+    BY <1>2
   <2> v.ty \in Types /\ v.inst \in Insts /\ v = [ty |-> v.ty, inst |-> v.inst]
     BY DEF Values
   <2> DEFINE r == IF v.ty \in DOMAIN memo THEN memo[v.ty] ELSE FirstMatch(v)
+  <2>0. Key(v.ty) = v.ty
+    BY Assump DEF Key
   <2>1. r = FirstMatch(v)
-    BY DEF IndInv, MemoSound
+    BY DEF IndInv, MemoSoundAll
   <2>2. last' = [v |-> v, r |-> r] /\ calls' = calls + 1
-    BY DEF GetType
+    BY <2>0 DEF GetType
   <2>3. C19_HistoryIndependent'
     BY <2>1, <2>2 DEF C19_HistoryIndependent
   <2>4. CASE v.ty \in DOMAIN memo \/ InstanceDependent(v.ty)
     <3> memo' = memo
-      BY <2>4, Assump DEF GetType
+      BY <2>4, <2>0, Assump DEF GetType
     <3> QED
-      BY <2>2, <2>3 DEF IndInv, MemoSound
+      BY <2>2, <2>3 DEF IndInv, MemoSoundAll
   <2>5. CASE ~(v.ty \in DOMAIN memo \/ InstanceDependent(v.ty))
     <3>1. memo' = [t \in DOMAIN memo \cup {v.ty} |-> IF t = v.ty THEN r ELSE memo[t]]
-      BY <2>5 DEF GetType
+      BY <2>5, <2>0 DEF GetType
     <3>2. DOMAIN memo' = DOMAIN memo \cup {v.ty}
       BY <3>1
     <3>3. \A i \in Insts : FirstMatch([ty |-> v.ty, inst |-> i]) = r
       BY <2>1, <2>5, InstanceFree
-    <3>4. MemoSound'
-      BY <3>1, <3>2, <3>3 DEF MemoSound, IndInv
+    <3>4. MemoSoundAll'
+      BY <3>1, <3>2, <3>3 DEF MemoSoundAll, IndInv
     <3> QED
       BY <2>2, <2>3, <2>5, <3>2, <3>4 DEF IndInv
   <2> QED
     BY <2>4, <2>5
 <1> QED
-  BY <1>1, <1>2
+  BY <1>1, <1>2, <1>3 DEF Next
 
 THEOREM C19_Unbounded == Init /\ [][Next]_rvars => []C19_HistoryIndependent
 <1>1. IndInv => C19_HistoryIndependent
